@@ -945,17 +945,17 @@ def shards_delta(shards, other_shards):
     """
     Yield shards1 with cviews that are the same as shards2 having canv = None.
     """
-    # pylint: disable=stop-iteration-return
     other_shards_iter = iter(other_shards)
     other_num_rows = other_cviews = None
     done = other_done = 0
     for num_rows, cviews in shards:
+        # other_num_rows is None: the other shards may be exhausted, nothing to compare the remaining shards with
         if other_num_rows is None:
-            other_num_rows, other_cviews = next(other_shards_iter)
-        while other_done < done:
+            other_num_rows, other_cviews = next(other_shards_iter, (None, None))
+        while other_num_rows is not None and other_done < done:
             other_done += other_num_rows
-            other_num_rows, other_cviews = next(other_shards_iter)
-        if other_done > done:
+            other_num_rows, other_cviews = next(other_shards_iter, (None, None))
+        if other_num_rows is None or other_done > done:
             yield (num_rows, cviews)
             done += num_rows
             continue
@@ -967,17 +967,17 @@ def shards_delta(shards, other_shards):
 
 
 def shard_cviews_delta(cviews, other_cviews):
-    # pylint: disable=stop-iteration-return
     other_cviews_iter = iter(other_cviews)
     other_cv = None
     cols = other_cols = 0
     for cv in cviews:
+        # other_cv is None: the other cviews may be exhausted, nothing to compare the remaining cviews with
         if other_cv is None:
-            other_cv = next(other_cviews_iter)
-        while other_cols < cols:
+            other_cv = next(other_cviews_iter, None)
+        while other_cv is not None and other_cols < cols:
             other_cols += other_cv[2]
-            other_cv = next(other_cviews_iter)
-        if other_cols > cols:
+            other_cv = next(other_cviews_iter, None)
+        if other_cv is None or other_cols > cols:
             yield cv
             cols += cv[2]
             continue
